@@ -292,12 +292,22 @@ def case_biterrors(ctx, rng, idx):
     b = rng.integers(0, 2 ** bits, size=shape, dtype=np.int64).astype(dtype)
     if rng.random() < 0.2 and a.size:
         b = a.copy()            # no errors at all
+    if kind != "pyint" and rng.random() < 0.3:
+        # index arrays of different widths: one operand in the narrowest dtype
+        # that holds ITS values, the other stays 64-bit with values outside that range
+        t = [np.uint8, np.int16, np.uint16, np.int32, np.uint32][int(rng.integers(0, 5))]
+        a = (np.asarray(a, dtype=np.int64) % (int(np.iinfo(t).max) + 1)).astype(t)
+        dtype = t
+        b = np.asarray(b).astype(np.int64)       # keeps all its `bits` bits
+        if rng.random() < 0.5:
+            a, b = b, a
     if kind == "pyint":
         a, b = int(a), int(b)
     ref_el = popcount_arr(np.bitwise_xor(np.asarray(a, dtype=np.int64),
                                          np.asarray(b, dtype=np.int64)))
     d = lambda: {"kind": kind, "bits": bits, "a": np.asarray(a).ravel()[:6],
-                 "b": np.asarray(b).ravel()[:6], "dtype": str(dtype)}
+                 "b": np.asarray(b).ravel()[:6], "dtype": str(dtype),
+                 "dtypes": [str(np.asarray(a).dtype), str(np.asarray(b).dtype)]}
     okc, tot = ctx.call("bit-errors", MISC.count_bit_errors, a, b, detail=d)
     if okc:
         ctx.ev("bit-errors", int(tot) == int(ref_el.sum()), cls="total",
